@@ -18,12 +18,15 @@ def path_facts(ctx, nid):
     """(text, polarity) of the conjuncts of the tests whose edge dominates node nid"""
     facts = set()
     cfg = ctx.cfg
+    from .common import local_aliases, unalias
+
+    al = local_aliases(ctx.fi.node)
     for t in cfg.nodes:
         if t.kind != "test":
             continue
         for lab, pol in (("t", True), ("f", False)):
             if cfg.edge_dominates(t.id, lab, nid) and nid in cfg.live_nodes() and any(l == lab for _, l in t.succ):
-                c = t.ast
+                c = unalias(t.ast, al)
                 parts = [c]
                 if isinstance(c, ast.BoolOp) and ((isinstance(c.op, ast.And) and pol) or (isinstance(c.op, ast.Or) and not pol)):
                     parts = c.values
@@ -44,6 +47,8 @@ def norm_fact(pp: ast.expr, q: bool):
             return (seg(ast.Compare(left=pp.left, ops=[ast.Is()], comparators=pp.comparators)), not q)
         if isinstance(pp.ops[0], ast.NotEq):
             return (seg(ast.Compare(left=pp.left, ops=[ast.Eq()], comparators=pp.comparators)), not q)
+        if isinstance(pp.ops[0], ast.NotIn):
+            return (seg(ast.Compare(left=pp.left, ops=[ast.In()], comparators=pp.comparators)), not q)
     return (seg(pp), q)
 
 
